@@ -1,11 +1,11 @@
 (* os.path.join / normpath on a normalised absolute root and plain segments *)
 From Coq Require Import List NArith Bool Arith Lia.
-From VF Require Import FileH.Str FileH.StrProofs FileH.PosixPath.
+From VF Require Import FileH.Str FileH.StrProofs FileH.PosixPath FileH.Unquote FileH.Handler FileH.Spec.
 Import ListNotations.
 Open Scope N_scope.
 
-(* "/" ++ s1 ++ "/" ++ s2 ...  =  "/".join([""] + segs) *)
-Definition slashed (segs : list str) : str := concat (map (cons SL) segs).
+
+
 
 (* a path segment that is a real name *)
 Definition plain (seg : str) : Prop :=
